@@ -71,6 +71,9 @@ def run(ctx):
     # the in-flight counter under a storm of sessions that end while others are accepted (two threads on the real WaitGroup)
     for k in range(2 if q else 6):
         scns.append({"mode": "e2e", "steps": [["S", "Signal"]], "model": {"returned": True}, "storm": {"rounds": 20 if q else 60, "per": 100000 if q else 300000}})
+    # bursts: a connection in the accept queue and the interrupt delivered between two polls of the accept loop (a runtime with one thread)
+    for k in range(3 if q else 12):
+        scns.append({"mode": "e2e", "steps": [["C", "Arrive"], ["S", "Signal"]], "model": {"returned": True}, "burst": True})
     for d in scns:
         d.setdefault("crash", []); d.setdefault("ws", [])
     for n, d in enumerate(scns):
